@@ -1,0 +1,11 @@
+//go:build verif
+
+// C15: when the gate-auto-refresh hook fails without having asked for anything, snapd holds on the snap's
+// behalf with the default (maximum) duration: the duration handed to snapstate.HoldRefresh is zero.
+// Only compiled with -tags verif.
+
+package hookstate
+
+//@ func (*gateAutoRefreshHookHandler).Error
+//@   props C15
+//@   guard call HoldRefresh: [default-duration] arg3 == 0 && arg1 == snapstate.HoldAutoRefresh
